@@ -17,11 +17,12 @@ import (
 )
 
 type HarnessSpec struct {
-	Dir   string
-	Name  string
-	Tweak func(cfg *sym.HarnessCfg, tier string)
-	Reach []string // labels that must be witnessed (non-vacuity)
-	Tiers string   // "" = both, "thorough" = thorough only
+	Dir     string
+	Name    string
+	Tweak   func(cfg *sym.HarnessCfg, tier string)
+	Reach   []string // labels that must be witnessed (non-vacuity)
+	Tiers   string   // "" = both, "thorough" = thorough only
+	Variant string
 }
 
 type PropSpec struct {
@@ -288,8 +289,8 @@ func cmdCheck(args []string) int {
 	var samples []interface{}
 	tot := struct {
 		paths, instrs, trivial, unsat, sat, unknown, bound, queries int
-		solver                                                     float64
-		maxq                                                       int64
+		solver                                                      float64
+		maxq                                                        int64
 	}{}
 	for _, hs := range spec.Harnesses {
 		if hs.Tiers == "thorough" && *tier != "thorough" {
@@ -311,6 +312,9 @@ func cmdCheck(args []string) int {
 			hs.Tweak(cfg, *tier)
 		}
 		res := sym.Explore(prog, cfg)
+		if hs.Variant != "" {
+			res.Name = hs.Name + "[" + hs.Variant + "]"
+		}
 		results = append(results, res)
 		fmt.Printf("harness %-28s paths=%d instrs=%d trivial=%d unsat=%d sat=%d unknown=%d bound=%d queries=%d solver=%.1fs wall=%.1fs\n",
 			res.Name, res.Paths, res.Instrs, res.NTrivial, res.NUnsat, res.NSat, res.NUnknown, res.NBound, res.Queries, res.SolverTime.Seconds(), res.Wall.Seconds())
@@ -482,18 +486,18 @@ func cmdCheck(args []string) int {
 		"bounds":                        spec.Bounds[*tier],
 		"queries": map[string]interface{}{"total": tot.queries, "obligations_unsat": tot.unsat, "obligations_folded_by_normaliser": tot.trivial,
 			"sat": tot.sat, "sat_replayed_reproduced": reproduced, "sat_spurious": spurious, "unknown": tot.unknown, "bound_exceeded": tot.bound, "max_query_ms": tot.maxq},
-		"solver_s":          tot.solver,
-		"solver_versions":   map[string]string{"z3": "4.8.12", "z3new": "5.1.0", "cvc5": "1.0.3"},
-		"uninterpreted":     ul,
-		"outside_claim":     spec.Outside,
-		"inconclusive":      incon,
-		"known_findings":    knownLines,
-		"load_s":            loadS,
-		"harnesses":         harnessSummaries(results),
-		"exhaustive":        false,
-		"evaluations":       tot.trivial + tot.unsat + tot.sat + tot.unknown,
+		"solver_s":            tot.solver,
+		"solver_versions":     map[string]string{"z3": "4.8.12", "z3new": "5.1.0", "cvc5": "1.0.3"},
+		"uninterpreted":       ul,
+		"outside_claim":       spec.Outside,
+		"inconclusive":        incon,
+		"known_findings":      knownLines,
+		"load_s":              loadS,
+		"harnesses":           harnessSummaries(results),
+		"exhaustive":          false,
+		"evaluations":         tot.trivial + tot.unsat + tot.sat + tot.unknown,
 		"distinct_nontrivial": tot.unsat + tot.sat,
-		"rule":              "one evaluation = one proof obligation (assertion, implicit panic check or unwinding assertion) on one symbolic path; non-trivial = needed an SMT query",
+		"rule":                "one evaluation = one proof obligation (assertion, implicit panic check or unwinding assertion) on one symbolic path; non-trivial = needed an SMT query",
 	}
 	for k, v := range ev {
 		cov[k] = v
@@ -532,7 +536,7 @@ func harnessSummaries(rs []*sym.HarnessResult) []interface{} {
 		}
 		sort.Strings(reached)
 		out = append(out, map[string]interface{}{"name": r.Name, "paths": r.Paths, "dead_paths": r.DeadPaths, "instrs": r.Instrs, "folded": r.NTrivial, "unsat": r.NUnsat, "sat": r.NSat,
-			"unknown": r.NUnknown, "bound": r.NBound, "queries": r.Queries, "feasibility_queries": r.FeasQueries, "solver_s": r.SolverTime.Seconds(), "wall_s": r.Wall.Seconds(), "reached": reached})
+			"unknown": r.NUnknown, "bound": r.NBound, "supports_checked": r.Supports, "sweep_solver_ms": r.SweepMs, "queries": r.Queries, "feasibility_queries": r.FeasQueries, "solver_s": r.SolverTime.Seconds(), "wall_s": r.Wall.Seconds(), "reached": reached})
 	}
 	return out
 }
